@@ -63,7 +63,7 @@ func ruleDeepCopy(c *Ctx, r *Report, prefix string) {
 				switch x := ins.(type) {
 				case *ssa.Store:
 					pair(x.Addr, x.Val)
-					if fd := rootField(x.Addr, dst); fd != nil && isRefType(x.Val.Type()) && rootField(x.Val, src) != nil {
+					if fd := rootField(x.Addr, dst); fd != nil && containsRef(x.Val.Type(), 0) && rootField(x.Val, src) != nil {
 						if _, direct := x.Addr.(*ssa.FieldAddr); direct {
 							shared[fd] = true
 						}
@@ -134,6 +134,27 @@ func rootField(v ssa.Value, root ssa.Value) *types.Var {
 		}
 	}
 	return nil
+}
+
+// containsRef: a value of this type carries a reference (slice, map, pointer, channel), directly or
+// inside a struct or array: assigning it shares what the reference points to.
+func containsRef(t types.Type, depth int) bool {
+	if depth > 6 {
+		return false
+	}
+	switch u := t.Underlying().(type) {
+	case *types.Slice, *types.Map, *types.Pointer, *types.Chan:
+		return true
+	case *types.Struct:
+		for i := 0; i < u.NumFields(); i++ {
+			if containsRef(u.Field(i).Type(), depth+1) {
+				return true
+			}
+		}
+	case *types.Array:
+		return containsRef(u.Elem(), depth+1)
+	}
+	return false
 }
 
 func isRefType(t types.Type) bool {
